@@ -307,10 +307,10 @@ type consState struct {
 	j  jsState
 }
 
-func consumeSym(d posDef, c0 consState, s string) (consState, []string) {
+func consumeSym(d posDef, c0 consState, s string) (consState, []string, []string) {
 	if s == "LF" && c0.cr {
 		c0.cr = false
-		return c0, nil
+		return c0, nil, nil
 	}
 	c := s
 	if s == "CR" {
@@ -322,10 +322,12 @@ func consumeSym(d posDef, c0 consState, s string) (consState, []string) {
 	if d.html == "sd" {
 		h2 := sdStep(c0.h, c)
 		j, dd := c0.j, []string(nil)
+		var seen []string
 		if !isEnd(c0.h) {
 			j, dd = jsStep(c0.j, c)
+			seen = []string{c}
 		}
-		return consState{h: h2, cr: crn, j: j}, dd
+		return consState{h: h2, cr: crn, j: j}, dd, seen
 	}
 	q, out := attrStep(c0.h, c)
 	j := c0.j
@@ -335,7 +337,7 @@ func consumeSym(d posDef, c0 consState, s string) (consState, []string) {
 		j, d1 = jsStep(j, o)
 		dd = append(dd, d1...)
 	}
-	return consState{h: q, cr: crn, j: j}, dd
+	return consState{h: q, cr: crn, j: j}, dd, out
 }
 
 // judge = SinksJsCases!Judge: consume a complete dynamic output followed by the author's closing quote.
@@ -349,10 +351,16 @@ func judge(p string, raw, jt []string, isString bool, out []string) (viol string
 	if d.mode != "top" {
 		all = append(append([]string{}, out...), jsQuoteOf(d.mode))
 	}
-	for _, s := range all {
-		var dd []string
-		c, dd = consumeSym(d, c, s)
+	var seen []string // what the JS engine receives
+	left := false     // the lexer left the author's literal before the author's closing quote
+	for i, s := range all {
+		var dd, tt []string
+		c, dd, tt = consumeSym(d, c, s)
 		dec = append(dec, dd...)
+		seen = append(seen, tt...)
+		if d.mode != "top" && i < len(out) && c.j.m == "top" {
+			left = true
+		}
 	}
 	dec = normSeq(dec)
 	useRaw := isString && len(d.stages) == 1 && d.stages[0] == "jsstr"
@@ -368,6 +376,13 @@ func judge(p string, raw, jt []string, isString bool, out []string) (viol string
 	ok := true
 	if isString || d.expect == "json" {
 		ok = eqSeq(dec, exp)
+		if isString && d.mode == "top" {
+			// a string in a code position: what the engine receives is one double-quoted literal
+			ok = ok && len(seen) >= 2 && seen[0] == symDQ && seen[len(seen)-1] == symDQ
+		}
+	} else {
+		// a non-string value in a code position: the JS engine must receive exactly the JSON text of the value
+		ok = eqSeq(normSeq(seen), normSeq(jt))
 	}
 	switch {
 	case isEnd(c.h):
@@ -376,7 +391,7 @@ func judge(p string, raw, jt []string, isString bool, out []string) (viol string
 		return "NoHtmlComment", dec
 	case c.j.m == "INTERP":
 		return "NoInterpolation", dec
-	case c.j.m != "top":
+	case c.j.m != "top" || left:
 		return "StaysInLiteral", dec
 	case !ok:
 		return "DecodesToInput", dec
